@@ -134,8 +134,8 @@ void *lltd_port_memset(void *ptr, int value, size_t num) { return memset(ptr, va
 static const void *g_mc_src; static void *g_mc_dst; static size_t g_mc_n; static unsigned g_mc_calls;
 void *lltd_port_memcpy(void *d, const void *s, size_t num) {
 #ifdef VERIF_CBMC
-    __CPROVER_assert(__CPROVER_r_ok(s, num), "C01,C08: memcpy source region readable");
-    __CPROVER_assert(__CPROVER_w_ok(d, num), "C01,C08: memcpy destination region writable");
+    __CPROVER_assert(__CPROVER_r_ok(s, num), "C01,C02,C08: memcpy source region readable (payload bytes come from the property's own object, never from memory beyond it)");
+    __CPROVER_assert(__CPROVER_w_ok(d, num), "C01,C02,C08: memcpy destination region writable");
 #else
     memcpy(d, s, num);
 #endif
